@@ -1,76 +1,67 @@
 package h
 
 import (
-	"bytes"
 	"io"
 	"os"
 	"sync"
 	"syscall"
 )
 
-// StdioGuard redirects file descriptors 1 and 2 into a pipe for the lifetime
+// StdioGuard redirects file descriptors 1 and 2 into a file for the lifetime
 // of a harness process (C27): whatever the engine - or anything it calls -
-// writes to standard output or standard error is captured. The harness
-// itself reports through the saved descriptors after Restore.
+// writes to standard output or standard error is captured. The file is
+// $VERIF_STDIO_CAP when set (the check driver sets it next to the harness's
+// output directory), so that the Go runtime's own last words - a panic on an
+// engine goroutine, a fatal error - survive the death of the process and can
+// be reported as what they are instead of as an infrastructure failure. The
+// harness itself reports through the saved descriptors after Restore.
 type StdioGuard struct {
 	mu     sync.Mutex
-	buf    bytes.Buffer
-	r, w   *os.File
+	f      *os.File
 	saved1 int
 	saved2 int
-	done   chan struct{}
+	keep   bool
 }
 
 func CaptureStdio() *StdioGuard {
-	g := &StdioGuard{done: make(chan struct{})}
+	g := &StdioGuard{}
 	var err error
-	g.r, g.w, err = os.Pipe()
-	Must(err, "pipe")
+	if p := os.Getenv("VERIF_STDIO_CAP"); p != "" {
+		g.f, err = os.OpenFile(p, os.O_CREATE|os.O_RDWR|os.O_TRUNC|os.O_APPEND, 0o644)
+		g.keep = true
+	} else {
+		g.f, err = os.CreateTemp("", "verif-stdio-*.cap")
+	}
+	Must(err, "stdio capture file")
 	g.saved1, err = syscall.Dup(1)
 	Must(err, "dup 1")
 	g.saved2, err = syscall.Dup(2)
 	Must(err, "dup 2")
 	ErrOut = os.NewFile(uintptr(g.saved2), "saved-stderr")
-	Must(syscall.Dup2(int(g.w.Fd()), 1), "dup2 1")
-	Must(syscall.Dup2(int(g.w.Fd()), 2), "dup2 2")
-	go func() {
-		tmp := make([]byte, 4096)
-		for {
-			n, err := g.r.Read(tmp)
-			if n > 0 {
-				g.mu.Lock()
-				g.buf.Write(tmp[:n])
-				g.mu.Unlock()
-			}
-			if err != nil {
-				if err != io.EOF {
-				}
-				close(g.done)
-				return
-			}
-		}
-	}()
+	Must(syscall.Dup2(int(g.f.Fd()), 1), "dup2 1")
+	Must(syscall.Dup2(int(g.f.Fd()), 2), "dup2 2")
 	return g
 }
 
 func (g *StdioGuard) Len() int {
 	g.mu.Lock()
 	defer g.mu.Unlock()
-	return g.buf.Len()
+	st, err := g.f.Stat()
+	if err != nil {
+		return 0
+	}
+	return int(st.Size())
 }
 
 func (g *StdioGuard) Since(off int) string {
 	g.mu.Lock()
 	defer g.mu.Unlock()
-	b := g.buf.Bytes()
-	if off > len(b) {
+	buf := make([]byte, 2000)
+	n, err := g.f.ReadAt(buf, int64(off))
+	if err != nil && err != io.EOF {
 		return ""
 	}
-	s := string(b[off:])
-	if len(s) > 2000 {
-		s = s[:2000]
-	}
-	return s
+	return string(buf[:n])
 }
 
 // Restore puts the original descriptors back (so the harness can print its
@@ -78,6 +69,7 @@ func (g *StdioGuard) Since(off int) string {
 func (g *StdioGuard) Restore() {
 	syscall.Dup2(g.saved1, 1)
 	syscall.Dup2(g.saved2, 2)
-	g.w.Close()
-	<-g.done
+	if !g.keep {
+		os.Remove(g.f.Name())
+	}
 }
